@@ -109,7 +109,7 @@ def run(ctx):
                 ok = len(rej) == 1 and ctx.expr(f, rej[0][1]["args"][0]) == "a1"
                 ctx.ob("C13.G.other-literal-kinds-rejected", f.key, "unexpected_lit_type(value)", ok, "%d" % len(rej))
                 for blk, t in rej:
-                    ctx.requires("C13.G.other-literal-kinds-rejected", f, blk, "unexpected_lit_type", [r"discr\(a1\)=\('not-in', \('Str',\)\)"])
+                    ctx.requires("C13.G.other-literal-kinds-rejected", f, blk, "unexpected_lit_type", [("ne", r"^discr\(a1\)$", "Str")])
                 # parse failure becomes the self-spanned unknown_lit_str_value
                 cl = ctx.closures_of(f)
                 rs = [e for c in cl for _, e in ctx.ret_exprs(c)]
